@@ -290,6 +290,8 @@ Tokenizer_parse_template_or_argument(Tokenizer *self)
     if (self->topstack->context & LC_FAIL_NEXT) {
         self->topstack->context ^= LC_FAIL_NEXT;
     }
+    // The braces were markup, not text: they say nothing about what follows.
+    self->topstack->context &= ~LC_FAIL_ON_LBRACE;
     return 0;
 }
 
